@@ -2409,4 +2409,265 @@ theorem gmp_fprintf_fault (k : Nat) (pre : List Nat) (width base : Nat) (hb : 2 
   rw [e5] at this; exact absurd this (by simp)
 
 
+/-! ### text round trip (mpq) -/
+
+/-- `mpz_inp_str_nowhite` entered on the first character of what `mpz_out_str` wrote -/
+theorem mpz_text_nowhite (base : Int) (hb : (2 ≤ base ∧ base ≤ 62) ∨ (-36 ≤ base ∧ base ≤ -2)) (x dest : Int)
+    (rest : List Nat)
+    (hrest : ∀ c, rest.head? = some c → digitValue (decide ((base.natAbs : Int) > 36)) c ≥ base.natAbs)
+    (nread : Nat) :
+    ∃ c0 t, mpzText base x = c0 :: t ∧
+      mpz_inp_str_nowhite dest (t ++ rest) (base.natAbs : Int) (some c0) nread
+        = (nread + (mpzText base x).length - 1, x, rest) := by
+  have hob := outBase_abs base hb
+  have hb2 : 2 ≤ base.natAbs := by omega
+  have hb62 : base.natAbs ≤ 62 := by omega
+  have hf : ∀ e, e < base.natAbs →
+      digitValue (decide ((base.natAbs : Int) > 36)) (numToText base e) = e ∧ numToText base e ≠ 45 ∧
+      (numToText base e = 48 ↔ e = 0) := by
+    intro e he; obtain ⟨a, _, c, d⟩ := digit_char base hb e he; exact ⟨a, c, d⟩
+  unfold mpzText
+  rw [hob]
+  simp only
+  by_cases hx0 : x = 0
+  · subst hx0
+    refine ⟨48, [], by simp, ?_⟩
+    simp only [if_true, List.nil_append, List.length_singleton]
+    unfold mpz_inp_str_nowhite
+    have hb62' : ¬ ((base.natAbs : Int) > 62) := by omega
+    have hb0 : ¬ ((base.natAbs : Int) = 0) := by omega
+    have hc45 : ¬ (some 48 = some 45) := by decide
+    have hdv48 : digitValue (decide ((base.natAbs : Int) > 36)) 48 = 0 := by simp [digitValue]
+    have hdig : ¬ ((digitValue (decide ((base.natAbs : Int) > 36)) 48 : Int) ≥ (base.natAbs : Int)) := by
+      rw [hdv48]; omega
+    simp only [hb62', if_false, hc45, hb0, hdig, Int.toNat_natCast]
+    cases rest with
+    | nil => simp [skipZeros, readDigits, ungetc]
+    | cons c r =>
+      have hc : digitValue (decide ((base.natAbs : Int) > 36)) c ≥ base.natAbs := hrest c rfl
+      have hc48 : c ≠ 48 := by intro h; rw [h, hdv48] at hc; omega
+      simp only [skipZeros, skipZeros_ne _ hc48, readDigits_stop _ _ c r [] hc]
+      simp [ungetc]
+  · simp only [hx0, if_false]
+    obtain ⟨v1, v2, v3, _⟩ := natDigits_spec base.natAbs hb2 x.natAbs
+    obtain ⟨n1, n2⟩ := v3 (by omega)
+    unfold magText
+    cases hds : natDigits base.natAbs x.natAbs with
+    | nil => exact absurd hds n1
+    | cons d0 ds =>
+      rw [hds] at v1 v2 n2
+      have hd0 : d0 < base.natAbs := v2 d0 (by simp)
+      have hd0z : d0 ≠ 0 := by simpa using n2
+      have hds' : ∀ e ∈ ds, e < base.natAbs := fun e he => v2 e (by simp [he])
+      by_cases hneg : x < 0
+      · refine ⟨45, numToText base d0 :: ds.map (numToText base), by simp [hneg], ?_⟩
+        simp only [hneg, if_true, List.map_cons, List.cons_append, List.nil_append, List.length_cons, List.length_map]
+        rw [nowhite_neg_digits dest base.natAbs hb2 hb62 (numToText base) hf d0 ds rest hd0 hd0z hds' hrest, v1]
+        have hxx : -(x.natAbs : Int) = x := by omega
+        rw [hxx]; congr 1; omega
+      · refine ⟨numToText base d0, ds.map (numToText base), by simp [hneg], ?_⟩
+        simp only [hneg, if_false, List.map_cons, List.nil_append, List.length_cons, List.length_map]
+        rw [nowhite_digits dest base.natAbs hb2 hb62 (numToText base) hf d0 ds rest hd0 hd0z hds' hrest, v1]
+        have hxx : (x.natAbs : Int) = x := by omega
+        rw [hxx]
+
+theorem mpz_out_str_append {s : OStream} (h : Healthy s) (base x : Int) :
+    (mpz_out_str s base x).2.out = s.out ++ mpzText base x := by
+  unfold mpz_out_str mpzText
+  cases hb : outBase base with
+  | none => simp
+  | some b =>
+    simp only
+    by_cases hx : x = 0
+    · simp only [hx, if_true]
+      obtain ⟨w1, w2, w3⟩ := write_healthy h [48]
+      exact w2
+    · simp only [hx, if_false]
+      by_cases hn : x < 0
+      · simp only [hn, if_true]
+        obtain ⟨w1, w2, w3⟩ := write_healthy h [45]
+        obtain ⟨v1, v2, v3⟩ := write_healthy w1 (magText base b x.natAbs)
+        rw [v2, w2]; simp
+      · simp only [hn, if_false]
+        obtain ⟨v1, v2, v3⟩ := write_healthy h (magText base b x.natAbs)
+        rw [v2]; simp
+
+/-- what `mpq_out_str` writes on a healthy stream -/
+def mpqText (base : Int) (num den : Int) : List Nat :=
+  mpzText base num ++ (if den ≠ 1 then 47 :: mpzText base den else [])
+
+theorem mpq_out_str_text (base num den : Int) :
+    (mpq_out_str {} base num den).2.out = mpqText base num den ∧
+    (mpq_out_str {} base num den).1 = (mpqText base num den).length := by
+  obtain ⟨b1, b2, b3⟩ := mpq_out_str_healthy healthy_init base num den
+  obtain ⟨a1, a2, a3⟩ := mpz_out_str_healthy healthy_init base num
+  obtain ⟨t1, t2⟩ := mpz_out_str_text base num
+  have hlen : ∀ y, (mpzText base y).length = mpzTextLen base y := by
+    intro y
+    obtain ⟨u1, u2⟩ := mpz_out_str_text base y
+    obtain ⟨_, _, w3⟩ := mpz_out_str_healthy healthy_init base y
+    rw [← u2, w3]
+  have hl : (mpqText base num den).length = mpqTextLen base num den := by
+    unfold mpqText mpqTextLen; split <;> simp [hlen]; omega
+  refine ⟨?_, by rw [b3, hl]⟩
+  unfold mpq_out_str mpqText
+  by_cases hd : den ≠ 1
+  · simp only [hd, ne_eq, not_false_eq_true, if_true]
+    obtain ⟨w1, w2, _⟩ := write_healthy a1 [47]
+    -- the second mpz_out_str appends the text of den to whatever is in the stream
+    have happ := mpz_out_str_append w1 base den
+    rw [happ, w2, t1]; simp
+  · simp only [hd, if_false, t1]; simp
+
+theorem mpzText_length_pos (base : Int) (hb : (2 ≤ base ∧ base ≤ 62) ∨ (-36 ≤ base ∧ base ≤ -2)) (x : Int) :
+    0 < (mpzText base x).length := by
+  obtain ⟨c0, t, h, _⟩ := mpz_text_nowhite base hb x 0 [] (by simp) 0
+  rw [h]; simp
+
+/-- stream-level round trip of `mpq_out_str` / `mpq_inp_str` (raw fields; no canonicalisation on either side) -/
+theorem mpq_text_roundtrip (base : Int) (hb : (2 ≤ base ∧ base ≤ 62) ∨ (-36 ≤ base ∧ base ≤ -2))
+    (num den : Int) (q : Int × Int) (rest : List Nat)
+    (hrest : ∀ c, rest.head? = some c → digitValue (decide ((base.natAbs : Int) > 36)) c ≥ base.natAbs)
+    (hslash : rest.head? ≠ some 47) :
+    mpq_inp_str_rd q (mpqText base num den ++ rest) (base.natAbs : Int)
+      = ((mpqText base num den).length, (num, den), rest) := by
+  have hb2 : 2 ≤ base.natAbs := by omega
+  have hb62 : base.natAbs ≤ 62 := by omega
+  have hnl := mpzText_length_pos base hb num
+  have hdv47 : digitValue (decide ((base.natAbs : Int) > 36)) 47 ≥ base.natAbs := by
+    have : digitValue (decide ((base.natAbs : Int) > 36)) 47 = 255 := by simp [digitValue]
+    omega
+  unfold mpq_inp_str_rd mpqText
+  by_cases hd : den ≠ 1
+  · simp only [hd, ne_eq, not_false_eq_true, if_true, List.append_assoc, List.cons_append]
+    rw [mpz_text_roundtrip base hb num q.1 (47 :: (mpzText base den ++ rest)) (by intro c hc; simp at hc; rw [← hc]; exact hdv47)]
+    obtain ⟨c0, t, ht, hnw⟩ := mpz_text_nowhite base hb den 1 rest hrest ((mpzText base num).length + 1 + 1)
+    have hne : ¬ (mpzText base num).length = 0 := by omega
+    simp only [hne, if_false, getc, if_true, ht, List.cons_append, hnw]
+    have hne2 : ¬ ((mpzText base num).length + 1 + 1 + (c0 :: t).length - 1 = 0) := by simp
+    simp only [hne2, if_false]
+    congr 1
+    simp; omega
+  · have hd1 : den = 1 := by simpa using hd
+    subst hd1
+    simp only [ne_eq, not_true_eq_false, if_false, List.append_nil]
+    rw [mpz_text_roundtrip base hb num q.1 rest hrest]
+    have hne : ¬ (mpzText base num).length = 0 := by omega
+    simp only [hne, if_false]
+    cases rest with
+    | nil => simp [getc, ungetc]
+    | cons c r =>
+      have hc : digitValue (decide ((base.natAbs : Int) > 36)) c ≥ base.natAbs := hrest c rfl
+      have hc47 : ¬ (some c = some 47) := by simpa using hslash
+      simp [getc, ungetc, hc47]
+
+/-! ### text round trip (mpf, stream level) -/
+
+/-- what `mpf_out_str` writes, given the digit string `str` of `mpf_get_str` (with its sign) and `exp` -/
+def mpfText (base : Int) (str : List Nat) (exp : Int) : List Nat :=
+  (if str.head? = some 45 then [45] else []) ++ [48, 46] ++ (if str.head? = some 45 then str.tail else str) ++
+    ((if (if base = 0 then 10 else base).natAbs ≤ 10 then 101 else 64) :: intText exp)
+
+theorem mpf_out_str_text (base : Int) (str : List Nat) (exp : Int) :
+    (mpf_out_str {} base str exp).2.out = mpfText base str exp ∧
+    (mpf_out_str {} base str exp).1 = (mpfText base str exp).length := by
+  have hH : Healthy ({} : OStream) := healthy_init
+  unfold mpf_out_str mpfText
+  simp only
+  by_cases hn : str.head? = some 45
+  · simp only [hn, if_true]
+    obtain ⟨w1, o1, _⟩ := write_healthy hH [45]
+    obtain ⟨w2, o2, _⟩ := write_healthy w1 [48]
+    obtain ⟨w3, o3, _⟩ := write_healthy w2 [46]
+    obtain ⟨w4, o4, n4⟩ := write_healthy w3 str.tail
+    obtain ⟨w5, o5, n5⟩ := write_healthy w4 ((if (if base = 0 then 10 else base).natAbs ≤ 10 then 101 else 64) :: intText exp)
+    refine ⟨by rw [o5, o4, o3, o2, o1]; simp, ?_⟩
+    simp only [w5.2.1, Bool.false_eq_true, if_false, n4, n5, if_true]
+    simp; omega
+  · simp only [hn, if_false]
+    obtain ⟨w2, o2, _⟩ := write_healthy hH [48]
+    obtain ⟨w3, o3, _⟩ := write_healthy w2 [46]
+    obtain ⟨w4, o4, n4⟩ := write_healthy w3 str
+    obtain ⟨w5, o5, n5⟩ := write_healthy w4 ((if (if base = 0 then 10 else base).natAbs ≤ 10 then 101 else 64) :: intText exp)
+    refine ⟨by rw [o5, o4, o3, o2]; simp, ?_⟩
+    simp only [w5.2.1, Bool.false_eq_true, if_false, n4, n5, if_true]
+    simp; omega
+
+theorem readToken_stop (c : Nat) (r acc : List Nat) (hc : isspace c = true) :
+    readToken (some c) r acc = (acc.reverse, some c, r) := by
+  cases r <;> simp [readToken, hc]
+
+theorem readToken_token (rest : List Nat) (hrest : ∀ c, rest.head? = some c → isspace c = true) :
+    ∀ (t : List Nat) (c : Nat) (acc : List Nat), isspace c = false → (∀ e ∈ t, isspace e = false) →
+    readToken (some c) (t ++ rest) acc = (acc.reverse ++ c :: t, rest.head?, rest.tail) := by
+  intro t
+  induction t with
+  | nil =>
+    intro c acc hc _
+    cases rest with
+    | nil => simp [readToken, hc]
+    | cons d r =>
+      have hd : isspace d = true := hrest d rfl
+      simp only [List.nil_append, readToken, hc, Bool.false_eq_true, if_false]
+      rw [readToken_stop d r _ hd]; simp
+  | cons e t ih =>
+    intro c acc hc ht
+    simp only [List.cons_append, readToken, hc, Bool.false_eq_true, if_false]
+    rw [ih e (c :: acc) (ht e (by simp)) (fun x hx => ht x (by simp [hx]))]
+    simp
+
+theorem intText_nospace (i : Int) : ∀ e ∈ intText i, isspace e = false := by
+  have hdec : ∀ n : Nat, ∀ e ∈ decText n, isspace e = false := by
+    intro n e he
+    unfold decText at he
+    split at he
+    · have : e = 48 := by simpa using he
+      subst this; decide
+    · rw [List.mem_map] at he
+      obtain ⟨d, hd, rfl⟩ := he
+      have := (natDigits_spec 10 (by decide) n).2.1 d hd
+      unfold isspace; simp; omega
+  intro e he
+  unfold intText at he
+  split at he
+  · rcases List.mem_cons.mp he with h | h
+    · subst h; decide
+    · exact hdec _ e h
+  · exact hdec _ e he
+
+/-- `mpf_inp_str` finds exactly the text `mpf_out_str` wrote as its token, whatever white space follows -/
+theorem mpf_text_scan (base : Int) (str : List Nat) (exp : Int) (hstr : ∀ e ∈ str, isspace e = false)
+    (rest : List Nat) (hrest : ∀ c, rest.head? = some c → isspace c = true) :
+    mpf_inp_str_scan (mpfText base str exp ++ rest) = (mpfText base str exp, (mpfText base str exp).length, rest) := by
+  -- the text is a non-empty string without white space
+  have hns : ∀ e ∈ mpfText base str exp, isspace e = false := by
+    intro e he
+    unfold mpfText at he
+    simp only [List.mem_append, List.mem_cons] at he
+    rcases he with ((h | h) | h) | h
+    · split at h
+      · have : e = 45 := by simpa using h
+        subst this; decide
+      · simp at h
+    · rcases h with h | h | h
+      · subst h; decide
+      · subst h; decide
+      · simp at h
+    · split at h
+      · exact hstr e (List.mem_of_mem_tail h)
+      · exact hstr e h
+    · rcases h with h | h
+      · rw [h]
+        by_cases hm : (if base = 0 then 10 else base).natAbs ≤ 10 <;> simp only [hm, if_true, if_false] <;> decide
+      · exact intText_nospace exp e h
+  obtain ⟨c0, t, ht⟩ : ∃ c0 t, mpfText base str exp = c0 :: t := by
+    unfold mpfText; split <;> simp
+  rw [ht] at hns ⊢
+  have hc0 : isspace c0 = false := hns c0 (by simp)
+  unfold mpf_inp_str_scan
+  simp only [List.cons_append, skipWs, hc0, Bool.false_eq_true, if_false]
+  rw [readToken_token rest hrest t c0 [] hc0 (fun e he => hns e (by simp [he]))]
+  simp [ungetc_head_tail]
+
+
 end Mpir.Io
